@@ -1,5 +1,7 @@
 import PynnVerif.Proofs.SparseCorrelation
 import PynnVerif.Proofs.GenMerge
+import PynnVerif.Proofs.GenSparseMetrics
+import PynnVerif.Proofs.Metrics
 
 /-!
 # C08 — sparse metrics agree with their dense counterparts
@@ -499,6 +501,128 @@ theorem kernel_enc_agrees (x y : List α) (h : x.length = y.length) (fuel : Nat)
 
 end KernelComposed
 
+/-! ## the translated sparse METRIC kernels (`Gen/SparseMetricKernels.lean`)
+
+`sparse_diff`, `sparse_squared_euclidean`, `sparse_euclidean`, `sparse_manhattan`,
+`sparse_chebyshev` of `sparse.py`, translated from their source text on every run
+(`harness/translate_sparsemetrics.py`): thin wrappers that CALL the translated `sparse_sum` of
+`Gen/Kernels.lean` (on `-data2`) and loop once over the merged row.  Same hypotheses as
+`kernel_sparse_sum_refines` (parallel arrays, non-negative indices, no sortedness), fuel
+`≥ n1 + n2 + 1`; the carrier is arbitrary (`0`, decidable `=` / `<`, `+`, `-·`, `*`).
+Helper lemmas: `Proofs/GenSparseMetrics.lean`.  NOT translated (tied by sampling only):
+`sparse_minkowski`, `sparse_hamming`, `sparse_canberra`, `sparse_bray_curtis`, the binary family,
+`sparse_cosine`, `sparse_dot`, `sparse_hellinger`, `sparse_correlation`, … (whole-array numpy
+operations, mixed integer / float arithmetic, `norm`). -/
+section KernelMetricTie
+open Pynn.GenMerge Pynn.GenSparseMetricProofs
+variable {α : Type} [Zero α] [DecidableEq α] [Add α] [Neg α]
+
+/-- **`sparse_diff` (translated) = `sparseDiff` (model), memory safe**: the call
+`sparse_sum(ind1, data1, ind2, -data2)` of the translated `sparse_sum`. -/
+theorem kernel_sparse_diff_refines (ind1 ind2 : Array Int) (data1 data2 : Array α)
+    (h1 : ind1.size = data1.size) (h2 : ind2.size = data2.size)
+    (hn1 : NonNeg ind1) (hn2 : NonNeg ind2) (fuel : Nat) (hf : ind1.size + ind2.size + 1 ≤ fuel) :
+    GenSM.sparse_diff fuel ind1 data1 ind2 data2 =
+      some (indArr (sparseDiff (toSVec ind1 data1) (toSVec ind2 data2)),
+            valArr (sparseDiff (toSVec ind1 data1) (toSVec ind2 data2))) :=
+  sparse_diff_refines ind1 ind2 data1 data2 h1 h2 hn1 hn2 fuel hf
+
+/-- **`sparse_squared_euclidean` (translated) = `sqEuclidean` (model), memory safe** -/
+theorem kernel_sparse_squared_euclidean_refines [Mul α] (ind1 ind2 : Array Int) (data1 data2 : Array α)
+    (h1 : ind1.size = data1.size) (h2 : ind2.size = data2.size)
+    (hn1 : NonNeg ind1) (hn2 : NonNeg ind2) (fuel : Nat) (hf : ind1.size + ind2.size + 1 ≤ fuel) :
+    GenSM.sparse_squared_euclidean fuel ind1 data1 ind2 data2
+      = some (sqEuclidean (toSVec ind1 data1) (toSVec ind2 data2)) :=
+  sparse_squared_euclidean_refines ind1 ind2 data1 data2 h1 h2 hn1 hn2 fuel hf
+
+/-- **`sparse_euclidean` (translated) = `sqrt (sqEuclidean …)`** for whatever `sqrt` it is run with -/
+theorem kernel_sparse_euclidean_refines [Mul α] (sqrt : α → α) (ind1 ind2 : Array Int)
+    (data1 data2 : Array α) (h1 : ind1.size = data1.size) (h2 : ind2.size = data2.size)
+    (hn1 : NonNeg ind1) (hn2 : NonNeg ind2) (fuel : Nat) (hf : ind1.size + ind2.size + 1 ≤ fuel) :
+    GenSM.sparse_euclidean sqrt fuel ind1 data1 ind2 data2
+      = some (sqrt (sqEuclidean (toSVec ind1 data1) (toSVec ind2 data2))) :=
+  sparse_euclidean_refines sqrt ind1 ind2 data1 data2 h1 h2 hn1 hn2 fuel hf
+
+/-- **`sparse_manhattan` (translated) = `manhattan` (model), memory safe** (`np.abs` = `absV`) -/
+theorem kernel_sparse_manhattan_refines [Mul α] [LT α] [DecidableLT α] (ind1 ind2 : Array Int)
+    (data1 data2 : Array α) (h1 : ind1.size = data1.size) (h2 : ind2.size = data2.size)
+    (hn1 : NonNeg ind1) (hn2 : NonNeg ind2) (fuel : Nat) (hf : ind1.size + ind2.size + 1 ≤ fuel) :
+    GenSM.sparse_manhattan fuel ind1 data1 ind2 data2
+      = some (manhattan (toSVec ind1 data1) (toSVec ind2 data2)) :=
+  sparse_manhattan_refines ind1 ind2 data1 data2 h1 h2 hn1 hn2 fuel hf
+
+/-- **`sparse_chebyshev` (translated) = `chebyshev` (model), memory safe** (Python `max` = `maxV`) -/
+theorem kernel_sparse_chebyshev_refines [Mul α] [LT α] [DecidableLT α] (ind1 ind2 : Array Int)
+    (data1 data2 : Array α) (h1 : ind1.size = data1.size) (h2 : ind2.size = data2.size)
+    (hn1 : NonNeg ind1) (hn2 : NonNeg ind2) (fuel : Nat) (hf : ind1.size + ind2.size + 1 ≤ fuel) :
+    GenSM.sparse_chebyshev fuel ind1 data1 ind2 data2
+      = some (chebyshev (toSVec ind1 data1) (toSVec ind2 data2)) :=
+  sparse_chebyshev_refines ind1 ind2 data1 data2 h1 h2 hn1 hn2 fuel hf
+
+end KernelMetricTie
+
+/-! ### property C08 on BOTH regenerated kernels: translated sparse metric on the encodings =
+translated dense metric on the vectors -/
+section KernelBothSides
+open Pynn.GenMerge
+
+/-- on CSR encodings the translated sparse kernels return the model's DENSE reference values
+(`sqeuclidean_agrees`, `manhattan_agrees`, `chebyshev_agrees` on the translated source) -/
+theorem kernel_sparse_metrics_enc {α : Type} [DecidableEq α] [Ring α] [LinearOrder α]
+    [IsStrictOrderedRing α] (x y : List α) (h : x.length = y.length) (fuel : Nat)
+    (hf : x.length + y.length + 1 ≤ fuel) :
+    GenSM.sparse_squared_euclidean fuel (indArr (enc x)) (valArr (enc x)) (indArr (enc y)) (valArr (enc y))
+      = some (Dense.sqEuclidean x y) ∧
+    GenSM.sparse_manhattan fuel (indArr (enc x)) (valArr (enc x)) (indArr (enc y)) (valArr (enc y))
+      = some (Dense.manhattan x y) ∧
+    GenSM.sparse_chebyshev fuel (indArr (enc x)) (valArr (enc x)) (indArr (enc y)) (valArr (enc y))
+      = some (Dense.chebyshev x y) := by
+  have lx : (enc x).length ≤ x.length := by
+    rw [enc, length_encFrom]; exact List.countP_le_length
+  have ly : (enc y).length ≤ y.length := by
+    rw [enc, length_encFrom]; exact List.countP_le_length
+  have hf' : (indArr (enc x)).size + (indArr (enc y)).size + 1 ≤ fuel := by
+    rw [indArr_size, indArr_size]; omega
+  have a1 := kernel_sparse_squared_euclidean_refines (indArr (enc x)) (indArr (enc y)) (valArr (enc x))
+    (valArr (enc y)) (indArr_valArr_size _) (indArr_valArr_size _) (nonNeg_indArr _) (nonNeg_indArr _) fuel hf'
+  have a2 := kernel_sparse_manhattan_refines (indArr (enc x)) (indArr (enc y)) (valArr (enc x))
+    (valArr (enc y)) (indArr_valArr_size _) (indArr_valArr_size _) (nonNeg_indArr _) (nonNeg_indArr _) fuel hf'
+  have a3 := kernel_sparse_chebyshev_refines (indArr (enc x)) (indArr (enc y)) (valArr (enc x))
+    (valArr (enc y)) (indArr_valArr_size _) (indArr_valArr_size _) (nonNeg_indArr _) (nonNeg_indArr _) fuel hf'
+  rw [toSVec_indArr_valArr, toSVec_indArr_valArr] at a1 a2 a3
+  rw [sqeuclidean_agrees x y h] at a1
+  rw [manhattan_agrees x y h] at a2
+  rw [chebyshev_agrees x y h] at a3
+  exact ⟨a1, a2, a3⟩
+
+/-- **C08 stated on both regenerated kernels, over `ℝ`**: the translated `sparse_squared_euclidean` /
+`sparse_manhattan` / `sparse_chebyshev` of `sparse.py`, run on the CSR encodings of two real vectors
+of equal length, return exactly what the translated `squared_euclidean` / `manhattan` / `chebyshev`
+of `distances.py` (`Gen/MetricKernels.lean`, `Props/C07.lean`) return on the vectors themselves —
+all six runs without out-of-bounds access. -/
+theorem kernel_sparse_eq_dense (x y : List ℝ) (h : x.length = y.length) (fs fd : Nat)
+    (hfs : x.length + y.length + 1 ≤ fs) (hfd : x.length + 1 ≤ fd) :
+    GenSM.sparse_squared_euclidean fs (indArr (enc x)) (valArr (enc x)) (indArr (enc y)) (valArr (enc y))
+      = GenMetric.squared_euclidean fd x.toArray y.toArray ∧
+    GenSM.sparse_manhattan fs (indArr (enc x)) (valArr (enc x)) (indArr (enc y)) (valArr (enc y))
+      = GenMetric.manhattan fd x.toArray y.toArray ∧
+    GenSM.sparse_chebyshev fs (indArr (enc x)) (valArr (enc x)) (indArr (enc y)) (valArr (enc y))
+      = GenMetric.chebyshev fd x.toArray y.toArray := by
+  obtain ⟨a1, a2, a3⟩ := kernel_sparse_metrics_enc x y h fs hfs
+  have hs : x.toArray.size = y.toArray.size := by simpa using h
+  have hd : x.toArray.size + 1 ≤ fd := by simpa using hfd
+  rw [a1, a2, a3, GenMetricProofs.squared_euclidean_refines _ _ hs fd hd,
+    GenMetricProofs.manhattan_refines _ _ hs fd hd, GenMetricProofs.chebyshev_refines _ _ hs fd hd]
+  refine ⟨rfl, ?_, ?_⟩
+  · congr 1
+    unfold Dense.manhattan Metrics.manhattan Metrics.sumBy
+    simp only [absV_eq_abs]; rfl
+  · congr 1
+    unfold Dense.chebyshev Metrics.chebyshev
+    simp only [absV_eq_abs, maxV_eq_max]; rfl
+
+end KernelBothSides
+
 /-! ## non-vacuity: concrete runs of the model (`decide +kernel`: the merges are well-founded
 recursions, which the elaborator's `decide` does not unfold; kernel evaluation adds no axioms) -/
 
@@ -550,5 +674,14 @@ example : GenK.fast_intersection_size 6 #[3, 1] #[1, 3] = some 1 ∧ intersectio
   decide +kernel
 example : GenMerge.toSVec #[0, 2, 5] #[(1 : Int), -2, 3] = [(0, 1), (2, -2), (5, 3)] ∧
     GenMerge.NonNeg #[0, 2, 5] ∧ ¬ GenMerge.NonNeg #[0, -2] := by decide
+
+/-- the translated sparse metric kernels executed (they call the translated `sparse_sum`): rows
+`(0:1, 2:-2, 5:3)` and `(1:4, 2:2, 7:9)`, difference `(0:1, 1:-4, 2:-4, 5:3, 7:-9)` -/
+example : GenSM.sparse_diff 7 #[0, 2, 5] #[(1 : Int), -2, 3] #[1, 2, 7] #[4, 2, 9]
+    = some (#[0, 1, 2, 5, 7], #[1, -4, -4, 3, -9]) := by decide +kernel
+example : GenSM.sparse_squared_euclidean 7 #[0, 2, 5] #[(1 : Int), -2, 3] #[1, 2, 7] #[4, 2, 9] = some 123 ∧
+    GenSM.sparse_manhattan 7 #[0, 2, 5] #[(1 : Int), -2, 3] #[1, 2, 7] #[4, 2, 9] = some 21 ∧
+    GenSM.sparse_chebyshev 7 #[0, 2, 5] #[(1 : Int), -2, 3] #[1, 2, 7] #[4, 2, 9] = some 9 := by
+  decide +kernel
 
 end Pynn.C08
